@@ -74,8 +74,8 @@ def shards(tier):
         labels = [AXS[d][i][1] for d, i in arr]
         shape = [len(l) for l in labels]
         n = int(np.prod(shape))
-        for vk in "fi":
-            pats = _patterns(n, shape, tier) if vk == "f" else [()]
+        for vk in ("f", "i", "f4", "i4"):
+            pats = _patterns(n, shape, tier) if vk == "f" else ([()] if vk in ("i", "i4") else _patterns(n, shape, "quick")[:4])
             for nan in pats:
                 out.append({"s": D.spec(dims, labels, kinds, vk=vk, base=7, nan=nan, var=D.VARIANTS[k % len(D.VARIANTS)], attrs={"u": 1})})
                 k += 1
@@ -105,15 +105,15 @@ def cases(sh, tier):
                 yield {"a": s, "op": "take", "axis": p, "p": p, "indexing": "position", "ix": [n, -1, 0, n + 1], "mode": mode}
             for m in range(2 ** n):
                 yield {"a": s, "op": "compress", "axis": s["dims"][p] if m % 2 else p, "p": p, "mask": [(m >> i) & 1 == 1 for i in range(n)]}
-        if s["vk"] == "f":
+        if s["vk"] in ("f", "f4"):
             slice_size = int(np.prod(D.shape_of(s))) // n
             mvs = [None] + (list(range(0, slice_size + 1)) if nd >= 2 else [])
             for mv in mvs:
                 yield {"a": s, "op": "dropna", "axis": s["dims"][p] if (mv or 0) % 2 == 0 else p, "p": p, "minvalid": mv}
-    if nd == 1 and s["vk"] == "f":
+    if nd == 1 and s["vk"] in ("f", "f4"):
         yield {"a": s, "op": "dropna", "axis": None, "p": 0, "minvalid": None}   # default axis
     for inplace in (False, True):
-        yield {"a": s, "op": "fillna", "value": -9.5 if s["vk"] == "f" else -9, "inplace": inplace}
+        yield {"a": s, "op": "fillna", "value": -9.5 if s["vk"] in ("f", "f4") else -9, "inplace": inplace}
         vals = D.build_ref(s).vals.reshape(-1)
         v0, v1 = py(vals[0]), py(vals[-1])
         n = vals.size
